@@ -31,14 +31,15 @@ DEFAULT_MAX_STACK = 1000000
 _adebug.enable_traceback_syntax_highlight(False)
 
 
-def reset_world():
+def reset_world(reset_scheduler=True):
     """Harness hygiene: canonical process-global state at the start of every run."""
     opts = _adebug.options
     for k, v in DEFAULT_OPTIONS.items():
         setattr(opts, k, v)
     opts.MAX_TASK_STACK_SIZE = DEFAULT_MAX_STACK
     opts.SCHEDULER_STATE_DUMP_INTERVAL = 1
-    _sched.reset()
+    if reset_scheduler:
+        _sched.reset()
     _tools.DeduplicateDecorator.tasks.clear()
     _batching._debug_batch_state.batches.clear()
     A.profiler.reset()
@@ -51,7 +52,10 @@ class SimItem(A.BatchItemBase):
         self.tok = tok
         self.key = key
         self.ncomputed = 0
-        self.on_computed.subscribe(B._item_computed)
+        self.on_computed.subscribe(self._notify)
+
+    def _notify(self, _):
+        self.batch.B._item_computed(self)
 
     def __str__(self):
         return "SimItem(%s)" % self.tok
@@ -276,6 +280,7 @@ class RealBackend(object):
         self.prio_vals = pr.get("vals", {})
         self.hash_vals = pr.get("hashes", {})
         self.nhash = 0
+        self.carried = None
         self.root = None
         self.root_exc = None
         self.root_val = None
@@ -307,8 +312,8 @@ class RealBackend(object):
         return None
 
     def setup(self):
-        reset_world()
         spec = self.spec
+        reset_world(reset_scheduler=spec.get("fresh_scheduler", True))
         opts = _adebug.options
         for k, v in spec.get("options", {}).items():
             if k in DEFAULT_OPTIONS:
@@ -318,14 +323,23 @@ class RealBackend(object):
         if spec.get("dump_interval") is not None:
             opts.SCHEDULER_STATE_DUMP_INTERVAL = spec["dump_interval"]
         simenv.clock.configure(spec.get("clock", {"seed": 0, "mode": "small"}))
-        if spec.get("fresh_scheduler", True):
-            _sched.reset()
         self.scheduler = A.scheduler.get_scheduler()
         self.scheduler.on_before_batch_flush.subscribe(self._before_flush)
         self.scheduler.on_after_batch_flush.subscribe(self._after_flush)
         self.current = [None] * spec["kinds"]
+        carried = self.carried or []
         for k in range(spec["kinds"]):
-            self.current[k] = SimBatch(self, k, 0)
+            if k < len(carried) and carried[k] is not None and not carried[k].is_flushed():
+                b = carried[k]
+                b.B = self
+                for it in b.items:
+                    self.items[it.tok] = it
+                self.current[k] = b
+            else:
+                self.current[k] = SimBatch(self, k, 0)
+        for kind, tok, key in spec.get("preload", []):
+            if kind < spec["kinds"]:
+                self.items[tok] = SimItem(self.current[kind], tok, key, self)
         nsv = max(1, spec.get("svs", 1))
         self.svs = [A.AsyncScopedValue(("d", i)) for i in range(nsv)]
         self.attr = AttrTarget()
@@ -339,6 +353,27 @@ class RealBackend(object):
             self.scheduler.on_after_batch_flush.unsubscribe(self._after_flush)
         except Exception:
             pass
+
+    def stale_items(self):
+        out = []
+        for b in self.current:
+            if b is not None and not b.is_flushed():
+                for it in b.items:
+                    out.append([b.kind, it.tok, it.key])
+        return out
+
+    def canon_trace(self):
+        """Trace with batch ids replaced by order of first appearance (comparable across services)."""
+        ids = {}
+        out = []
+        for e in self.trace:
+            if e[0] in ("item", "before", "after", "flush", "cancel"):
+                e = list(e)
+                i = 2 if e[0] == "item" else 1
+                e[i] = ids.setdefault(e[i], len(ids))
+                e = tuple(e)
+            out.append(e)
+        return out
 
     def cancel_stale_batches(self):
         """What a user's service reset would do between computations."""
@@ -690,7 +725,8 @@ class RealBackend(object):
 
     def post_sync(self, inst, val, err):
         self.ev("sync_ret", inst.token, repr(val) if err is None else ("E", errtok(err)))
-        self._check_active(inst, "after-sync")
+        if not (isinstance(err, RuntimeError) and "exceeded maximum threshold" in str(err)):
+            self._check_active(inst, "after-sync")
         self._read(inst)
         if "C06" in self.mon and self.live_ctx:
             self._ctx_monitor(inst)
